@@ -327,13 +327,13 @@ func myColDef(schema, table, orgTable, name, orgName []byte, charset uint16, len
 }
 
 func init() {
-	// C12.my.coldef <declared type|none> <seq> <payload>: parse a column definition packet, let the real
+	// C12.my.coldef <declared type|none> <seq> <payload> [<maria 0|1>]: parse a column definition packet, let the real
 	// updateFieldEncodedType rewrite it for a column `c` of table `t` with that data_type, dump it.
 	core.Register("C12.my.coldef", func(a []string) string {
 		payload := core.UnHex(a[2])
 		hdr := []byte{byte(len(payload)), byte(len(payload) >> 8), byte(len(payload) >> 16), byte(core.Atoi(a[1]))}
 		p := my.VerifNewPacket(hdr, payload)
-		field, err := my.ParseResultField(p, false)
+		field, err := my.ParseResultField(p, len(a) > 3 && a[3] == "1")
 		if err != nil {
 			return core.Err
 		}
